@@ -48,9 +48,18 @@ pub struct SiteShape {
     pub fraction: bool,
     /// a sixth of the populated directories lack their first chunks
     pub missing_starts: bool,
+    /// The time in a chunk's *name* is the radar's clock, not the bucket's: it may be ahead of or
+    /// behind the upload time, and it may have been corrected between two volumes (directories of
+    /// age >= `name_step_age` carry an extra `name_step_ms`). Discovery is defined by upload times.
+    pub name_skew_ms: i64,
+    pub name_step_age: usize,
+    pub name_step_ms: i64,
 }
 
 impl SiteShape {
+    pub fn name_start_ms(&self, age: usize) -> i64 {
+        self.first_chunk_ms(age) + self.name_skew_ms + if age >= self.name_step_age { self.name_step_ms } else { 0 }
+    }
     pub fn first_chunk_ms(&self, age: usize) -> i64 {
         // strictly increasing along the rotation, whole seconds (S3's resolution)
         self.newest_ms - (age as i64) * self.gap_s * 1000
@@ -137,9 +146,10 @@ impl Backend for ShapeBucket {
                     for v in s3sim::matching_dirs(&ss.site, prefix) {
                         if let Some(age) = ss.shape.age(v) {
                             let start = ss.first_chunk_ms(age);
+                            let name_start = ss.name_start_ms(age);
                             let k = ss.chunk_count(v);
                             for i in ss.first_seq(v)..=k {
-                                let key = format!("{}/{}/{}", ss.site, v, chunk_name(start, i));
+                                let key = format!("{}/{}/{}", ss.site, v, chunk_name(name_start, i));
                                 if !key.starts_with(prefix.as_str()) {
                                     continue;
                                 }
@@ -278,6 +288,27 @@ impl Check for C15 {
             (Tier::Thorough, 1) => Shape { n: 999, p: (p.index / 1000) as usize + 1, c: (p.index % 1000) as usize },
             _ => draw_production(tape),
         };
+        // When the newest upload happened: shortly before the simulation's epoch, or around a moment
+        // at which local calendars do something unusual (the DST changes of the `tz` variant's zone,
+        // the turn of the year, a leap day). The client's clock follows (plus its own offset).
+        const ANCHORS: [(i64, &str); 5] = [
+            (0, ""),
+            (1_730_613_600_000, "uploads_straddle_dst_end"),   // 2024-11-03 06:00 UTC = 02:00 EDT -> 01:00 EST
+            (1_710_054_000_000, "uploads_straddle_dst_start"), // 2024-03-10 07:00 UTC = 02:00 EST -> 03:00 EDT
+            (1_735_689_600_000, "uploads_straddle_new_year"),  // 2025-01-01 00:00 UTC
+            (1_709_251_200_000, "uploads_straddle_leap_day"),  // 2024-03-01 00:00 UTC
+        ];
+        let anchor = match tape.weighted(&[5, 2, 1, 1, 1]) {
+            0 => 0usize,
+            k => k,
+        };
+        let anchor_shift_ms: i64 = if anchor == 0 {
+            0
+        } else {
+            ctx.count(ANCHORS[anchor].1);
+            // the newest upload falls 0..2 h after the moment
+            ANCHORS[anchor].0 + 1000 * tape.draw(7200) as i64 - s3sim::EPOCH_MS
+        };
         let nsites = if concurrent { 2 + tape.draw(2) as usize } else { 1 };
         let first_site = tape.draw(SITES.len() as u64) as usize;
         let mut sites: Vec<SiteShape> = Vec::new();
@@ -288,13 +319,25 @@ impl Check for C15 {
                 site: SITES[(first_site + k) % SITES.len()].to_string(),
                 shape,
                 // the newest upload is 1..120 s old
-                newest_ms: s3sim::EPOCH_MS - 1000 * (1 + tape.draw(120) as i64),
+                newest_ms: s3sim::EPOCH_MS + anchor_shift_ms - 1000 * (1 + tape.draw(120) as i64),
                 // volumes start >= 1 s apart; when first chunks may be missing, further apart than a
                 // whole volume lasts, so that "first listed chunk" still orders the directories
                 gap_s: if missing_starts { 300 + tape.draw(600) as i64 } else { 1 + tape.draw(600) as i64 },
                 jitter_seed: tape.seed(),
                 fraction: tape.draw(2) == 1,
                 missing_starts,
+                name_skew_ms: match tape.weighted(&[4, 1, 1, 1]) {
+                    0 => 0,
+                    1 => 1000 * (1 + tape.draw(120) as i64),
+                    2 => -1000 * (1 + tape.draw(120) as i64),
+                    _ => 1000 * (tape.draw(1800) as i64 - 900),
+                },
+                name_step_age: match tape.weighted(&[2, 2, 1]) {
+                    0 => usize::MAX,
+                    1 => 1 + tape.draw(3) as usize,
+                    _ => 1 + tape.draw(998) as usize,
+                },
+                name_step_ms: 1000 * (tape.draw(1800) as i64 - 900),
             });
         }
         let (fail_rate, status_rate, mut latency_max_ms, budget) = if faults {
@@ -316,6 +359,7 @@ impl Check for C15 {
         if skew_ms < 0 {
             ctx.count("client_clock_behind");
         }
+        let skew_ms = skew_ms + anchor_shift_ms;
 
         let sites2 = sites.clone();
         let small_n = first_shape.n;
